@@ -447,6 +447,7 @@ class SQLDataHolder(DataHolder):
             )
             stmt_3 = sa.delete(NodeModel).where(NodeModel.job_id.in_(stmt_2))
             res = session.execute(stmt_3)
+            self._remove_associations_of_removed_nodes(session)
             session.commit()
             logging.getLogger().info(
                 f"Number of nodes with inconsistent jobs: {res.rowcount}"
@@ -477,10 +478,30 @@ class SQLDataHolder(DataHolder):
                 not_(NodeModel.job_id.in_(stmt))
             )
             res = session.execute(stmt_2)
+            self._remove_associations_of_removed_nodes(session)
             session.commit()
             logging.getLogger().info(
                 f"Number of events outside of time window: {res.rowcount}"
             )
+
+    @staticmethod
+    def _remove_associations_of_removed_nodes(session: Session) -> None:
+        """Method to remove the parent-child associations whose child node is
+        no longer in the database, so that the removed spans can be ingested
+        again without violating the uniqueness of the associations.
+
+        :param session: SQLAlchemy Session object.
+        :type session: :class: `sqlalchemy.orm.Session`
+        """
+        session.execute(
+            sa.delete(NODE_ASSOCIATION).where(
+                not_(
+                    sa.exists().where(
+                        NODE_ASSOCIATION.c.child_id == NodeModel.event_id
+                    )
+                )
+            )
+        )
 
 
 def intialise_temp_table_for_root_nodes(
